@@ -71,6 +71,7 @@ type multiObs struct {
 type containsObs struct {
 	P      [3]int `json:"p"`
 	Inside bool   `json:"inside"`
+	Mg     int    `json:"mg"` // margin in half units (signed)
 }
 
 type voxelRecord struct {
@@ -316,7 +317,10 @@ func runVoxelWorld(id int, vox [][3]int, vc voxCollider, rng *rand.Rand, nrays, 
 				o.Hitlin = o.Hit // no triangles to scan: vacuous
 			}
 			rec.Spheres = append(rec.Spheres, o)
-			rec.Contains = append(rec.Contains, containsObs{c, model3d.ColliderContains(coll, halfPt(c), 0)})
+			rec.Contains = append(rec.Contains, containsObs{c, model3d.ColliderContains(coll, halfPt(c), 0), 0})
+			// with a margin (positive: at least that far inside; negative: also points that close outside)
+			mg := rng.Intn(7) - 3
+			rec.Contains = append(rec.Contains, containsObs{c, model3d.ColliderContains(coll, halfPt(c), float64(mg)/2), mg})
 		}
 		if mc, ok := coll.(model3d.MultiCollider); ok {
 			for i := 0; i < nsph; i++ {
@@ -651,7 +655,7 @@ func runExtSolid(id int, vox [][3]int, name string, build func() model3d.Solid, 
 		s := build()
 		for i := 0; i < n; i++ {
 			p := [3]int{rng.Intn(2*ext[0]+5) - 2, rng.Intn(2*ext[1]+5) - 2, rng.Intn(2*ext[2]+5) - 2}
-			rec.Contains = append(rec.Contains, containsObs{p, s.Contains(halfPt(p))})
+			rec.Contains = append(rec.Contains, containsObs{p, s.Contains(halfPt(p)), 0})
 		}
 	})
 	return rec
